@@ -11,6 +11,10 @@
 //!     `parent()`, or a clipped target showing the first columns of each line); whatever the
 //!     parent refuses, the cells it does accept must carry the face of the state machine over
 //!     all bytes written so far.
+//!     The history is also written in SEGMENTS (cut at item boundaries), each through its own
+//!     writer instance over the same parent (`parent.by_ref().tty_writer()` per piece of output,
+//!     dropped afterwards without flush): the SGR state is the parent's current face, so the
+//!     cells must be those of one instance.
 //! (a') sinks with short writes: the round-trip stream of (a) is also encoded into a writer that
 //!     accepts a few bytes per `write` call; what reaches it must decode to the same history.
 
@@ -81,6 +85,11 @@ pub enum Case {
         refuse: Refuse,
         #[serde(default)]
         rewinds: Vec<u8>,
+        /// writer instances: before item `s % (len + 1)` the writer is dropped (no flush, no
+        /// `parent()` call) and a new `tty_writer()` is made over the same parent; a segment
+        /// boundary is always a write boundary and lies between complete items
+        #[serde(default)]
+        segments: Vec<u8>,
     },
 }
 
@@ -293,24 +302,30 @@ impl CellWrite for Recorder {
 enum Step<'a> {
     Write(&'a [u8]),
     Rewind,
+    /// the writer instance is dropped and a new one made over the same parent
+    NewWriter,
 }
 
-/// the writes of one chunking (`cuts` = sorted cut offsets) with the rewinds (sorted byte
-/// offsets) in between; a rewind is always a write boundary
-fn script<'a>(bytes: &'a [u8], cuts: &[usize], rewinds: &[usize]) -> Vec<Step<'a>> {
-    let mut events: Vec<(usize, bool)> = cuts.iter().map(|c| ((*c).min(bytes.len()), false)).collect();
-    events.extend(rewinds.iter().map(|r| ((*r).min(bytes.len()), true)));
+/// the writes of one chunking (`cuts` = sorted cut offsets) with the rewinds and the changes of
+/// writer instance (sorted byte offsets) in between; both are always write boundaries
+fn script<'a>(bytes: &'a [u8], cuts: &[usize], rewinds: &[usize], new_writers: &[usize]) -> Vec<Step<'a>> {
+    // kind: 0 cut, 1 rewind, 2 new writer instance
+    let mut events: Vec<(usize, u8)> = cuts.iter().map(|c| ((*c).min(bytes.len()), 0)).collect();
+    events.extend(rewinds.iter().map(|r| ((*r).min(bytes.len()), 1)));
+    events.extend(new_writers.iter().map(|r| ((*r).min(bytes.len()), 2)));
     events.sort();
     let mut steps = Vec::new();
     let mut prev = 0;
-    for (at, rewind) in events {
+    for (at, kind) in events {
         // duplicate cuts give empty writes, as in `hostile::split`
-        if !rewind || at > prev {
+        if kind == 0 || at > prev {
             steps.push(Step::Write(&bytes[prev..at]));
             prev = at;
         }
-        if rewind {
-            steps.push(Step::Rewind);
+        match kind {
+            1 => steps.push(Step::Rewind),
+            2 => steps.push(Step::NewWriter),
+            _ => {}
         }
     }
     steps.push(Step::Write(&bytes[prev..]));
@@ -333,9 +348,16 @@ fn first_unplaced<T>(got: &[T], expected: &[T], same: impl Fn(&T, &T) -> bool) -
     None
 }
 
-fn check_writer(initial: &FaceSpec, items: &[WItem], cuts: &[u16], refuse: Refuse, rewinds: &[u8]) -> Outcome {
+fn check_writer(initial: &FaceSpec, items: &[WItem], cuts: &[u16], refuse: Refuse, rewinds: &[u8], segments: &[u8]) -> Outcome {
     let mut rewind_items: Vec<usize> = rewinds.iter().map(|r| *r as usize % (items.len() + 1)).collect();
     rewind_items.sort();
+    let mut segment_items: Vec<usize> = segments.iter().map(|r| *r as usize % (items.len() + 1)).collect();
+    segment_items.sort();
+    let mut segment_at: Vec<usize> = Vec::new();
+    // an instance whose last item is an SGR sequence, followed by an instance that writes text
+    // before any other SGR sequence: the state handed over through the parent decides the face
+    let mut sgr_ends_instance = false;
+    let mut handover = false;
     let mut bytes = Vec::new();
     let mut st = SgrState::from_face(&initial.to_face());
     let mut expected: Vec<(char, Face)> = Vec::new();
@@ -348,6 +370,13 @@ fn check_writer(initial: &FaceSpec, items: &[WItem], cuts: &[u16], refuse: Refus
         for _ in rewind_items.iter().filter(|r| **r == i) {
             rewind_at.push(bytes.len());
             offered = 0;
+        }
+        for _ in segment_items.iter().filter(|r| **r == i) {
+            segment_at.push(bytes.len());
+            if i > 0 && matches!(items[i - 1], WItem::Sgr(_)) {
+                sgr_ends_instance = true;
+                handover |= matches!(item, WItem::Text(_));
+            }
         }
         match item {
             WItem::Sgr(params) => {
@@ -374,16 +403,20 @@ fn check_writer(initial: &FaceSpec, items: &[WItem], cuts: &[u16], refuse: Refus
         }
     }
     rewind_at.extend(rewind_items.iter().filter(|r| **r == items.len()).map(|_| bytes.len()));
+    segment_at.extend(segment_items.iter().filter(|r| **r == items.len()).map(|_| bytes.len()));
     let run = |steps: &[Step]| -> Result<Vec<(char, Face)>, Fail> {
         let mut rec = Recorder { face: initial.to_face(), refuse, ..Default::default() };
-        {
+        // one writer instance per run of steps between two `NewWriter`s, as the library's idiom
+        // `target.by_ref().tty_writer()` per piece of output; dropped without flush
+        for instance in steps.split(|s| matches!(s, Step::NewWriter)) {
             let mut w = rec.by_ref().tty_writer();
-            for step in steps {
+            for step in instance {
                 match step {
                     Step::Write(c) => w
                         .write_all(c)
                         .map_err(|e| Fail::new("writer/io-error", format!("write failed: {e:?}")))?,
                     Step::Rewind => w.parent().rewind(),
+                    Step::NewWriter => {}
                 }
             }
         }
@@ -391,13 +424,34 @@ fn check_writer(initial: &FaceSpec, items: &[WItem], cuts: &[u16], refuse: Refus
     };
     let cutpos = hostile::cuts_from(cuts, bytes.len());
     let every: Vec<usize> = (1..bytes.len()).collect();
-    let variants: Vec<(&str, Vec<Step>)> = vec![
-        ("single write", script(&bytes, &[], &rewind_at)),
-        ("generated chunks", script(&bytes, &cutpos, &rewind_at)),
-        ("byte at a time", script(&bytes, &every, &rewind_at)),
+    let mut variants: Vec<(&str, bool, Vec<Step>)> = vec![
+        ("single write", false, script(&bytes, &[], &rewind_at, &[])),
+        ("generated chunks", false, script(&bytes, &cutpos, &rewind_at, &[])),
+        ("byte at a time", false, script(&bytes, &every, &rewind_at, &[])),
     ];
-    for (what, steps) in variants {
+    if !segment_at.is_empty() {
+        variants.extend([
+            ("one write per writer instance", true, script(&bytes, &[], &rewind_at, &segment_at)),
+            ("generated chunks inside writer instances", true, script(&bytes, &cutpos, &rewind_at, &segment_at)),
+            ("byte at a time inside writer instances", true, script(&bytes, &every, &rewind_at, &segment_at)),
+        ]);
+    }
+    let show = |steps: &[Step]| -> String {
+        let writes: Vec<String> = steps
+            .iter()
+            .map(|s| match s {
+                Step::Write(c) => format!("\"{}\"", esc(c)),
+                Step::Rewind => "<rewind>".to_string(),
+                Step::NewWriter => "<writer dropped, new tty_writer() over the same parent>".to_string(),
+            })
+            .collect();
+        writes.join(", ")
+    };
+    for (what, segmented, steps) in variants {
         let got = guard(|| run(&steps))?;
+        // the face lives in the parent and an instance only keeps the state of an unfinished
+        // sequence, so instances that change between complete items are one writer
+        let oracle = if segmented { "writer/instances" } else { "writer" };
         if refuse == Refuse::Never {
             // the parent accepts everything: exactly the cells of the history
             if got != expected {
@@ -407,10 +461,11 @@ fn check_writer(initial: &FaceSpec, items: &[WItem], cuts: &[u16], refuse: Refus
                     (Some(_), Some(_)) => "face",
                     _ => "cell-count",
                 };
+                let how = if segmented { format!("{what}: [{}]", show(&steps)) } else { what.to_string() };
                 return Err(Fail::new(
-                    format!("writer/{class}"),
+                    format!("{oracle}/{class}"),
                     format!(
-                        "bytes \"{}\" from initial face {:?} ({what}): cell #{idx} is {:?}, SGR semantics give {:?}",
+                        "bytes \"{}\" from initial face {:?} ({how}): cell #{idx} is {:?}, SGR semantics give {:?}",
                         esc(&bytes),
                         initial.to_face(),
                         got.get(idx),
@@ -427,20 +482,13 @@ fn check_writer(initial: &FaceSpec, items: &[WItem], cuts: &[u16], refuse: Refus
                 Some(_) => "text",
             };
             let candidates: Vec<&Face> = expected.iter().filter(|(c, _)| *c == got[idx].0).map(|(_, f)| f).collect();
-            let writes: Vec<String> = steps
-                .iter()
-                .map(|s| match s {
-                    Step::Write(c) => format!("\"{}\"", esc(c)),
-                    Step::Rewind => "<rewind>".to_string(),
-                })
-                .collect();
             return Err(Fail::new(
-                format!("writer/refusing-parent/{class}"),
+                format!("{oracle}/refusing-parent/{class}"),
                 format!(
                     "parent {:?}, initial face {:?}, writes ({what}) [{}]: accepted cell #{idx} {:?} (after {:?}) is not a cell of the written history in this order; SGR semantics over all bytes written give {:?} the face(s) {:?}",
                     refuse,
                     initial.to_face(),
-                    writes.join(", "),
+                    show(&steps),
                     got[idx],
                     &got[idx.saturating_sub(2)..idx],
                     got[idx].0,
@@ -482,7 +530,10 @@ fn check_writer(initial: &FaceSpec, items: &[WItem], cuts: &[u16], refuse: Refus
         .label_if(refuse != Refuse::Never, "refusing-parent")
         .label_if(stage >= 1, "refusing-parent:cell-refused")
         .label_if(stage >= 3, "refusing-parent:sgr-then-accepted-cell-after-refusal")
-        .label_if(refuse != Refuse::Never && !rewind_at.is_empty(), "refusing-parent:rewound"))
+        .label_if(refuse != Refuse::Never && !rewind_at.is_empty(), "refusing-parent:rewound")
+        .label_if(!segment_at.is_empty(), "writer-instances")
+        .label_if(sgr_ends_instance, "writer-instances:sgr-last-in-instance")
+        .label_if(handover, "writer-instances:sgr-last-then-text-first"))
 }
 
 impl Property for C06 {
@@ -531,15 +582,17 @@ impl Property for C06 {
             2 => ((0u8..12).prop_map(Refuse::Full), rewinds(4)),
             2 => ((2u8..8, any::<u8>()).prop_map(|(width, v)| Refuse::Clip { width, visible: 1 + v % (width - 1) }), rewinds(3)),
         ];
-        let writer = (c05::face_spec(), proptest::collection::vec(witem, 1..12), cuts(), parent)
-            .prop_map(|(initial, items, cuts, (refuse, rewinds))| Case::Writer { initial, items, cuts, refuse, rewinds });
+        // 35% of the writer cases: 1-4 changes of writer instance at item boundaries
+        let segments = prop_oneof![13 => Just(Vec::new()), 7 => proptest::collection::vec(any::<u8>(), 1..5)];
+        let writer = (c05::face_spec(), proptest::collection::vec(witem, 1..12), cuts(), parent, segments)
+            .prop_map(|(initial, items, cuts, (refuse, rewinds), segments)| Case::Writer { initial, items, cuts, refuse, rewinds, segments });
         prop_oneof![1 => roundtrip, 1 => writer].boxed()
     }
 
     fn check(&self, case: &Case) -> Outcome {
         match case {
             Case::RoundTrip { items, cuts, failed_before, short_sink } => check_roundtrip(items, cuts, *failed_before, short_sink.as_deref()),
-            Case::Writer { initial, items, cuts, refuse, rewinds } => check_writer(initial, items, cuts, *refuse, rewinds),
+            Case::Writer { initial, items, cuts, refuse, rewinds, segments } => check_writer(initial, items, cuts, *refuse, rewinds, segments),
         }
     }
 
@@ -548,7 +601,7 @@ impl Property for C06 {
     }
 
     fn rule(&self) -> String {
-        "(a) 50%: 1-7 items out of Face (optional opaque fg/bg x 32 flag subsets x 6 underline styles) / FaceModify (every field combination incl. underline colour, reset) / Char (any scalar except ESC) encoded by one TTYEncoder in true colour (in one case of five after a failed encode into a writer refusing after 0-47 bytes) and decoded by TTYCommandDecoder as a single buffer, in 1-6 generated chunks and byte at a time; expected = the same face changes (reset + every expressible field for Face) and characters. In one round-trip case of four the items are also encoded, by a fresh encoder with the same history, into a writer that accepts only 1-64 (mostly 1-3) bytes per write call (cyclic pattern of 1-3 limits, always progress, never an error): encode must return Ok and, if other bytes reach that writer than reach the Vec, they must decode to the same history (roundtrip/short-write-sink/<item class>). (b) 50%: histories of 1-11 SGR sequences (1-5 parameters in standard spelling: 0, empty, 1/22, 3/23, 4, 4:0-4:5, 21, 24, 5/25, 9/29, 30-37, 40-47, 90-97, 100-107, 38/48/58 in all four spellings) and text, written through CellWrite::tty_writer from a generated initial face with the same three chunkings into a recording parent. 60% of (b): the parent accepts every cell and every produced cell must carry the face of the reference SGR state machine. 40% of (b): the parent refuses cells (put_cell returns false) - 20% a full target that accepts 0-11 cells and then refuses until rewound, 20% a clipped target that accepts the first 1..width-1 cells of every line of 2-7 cells - and the harness rewinds it through writer.parent() before 0-3 (full) or 0-2 (clipped) generated items (a rewind is a write boundary in all three chunkings); the cells the parent accepted must be, in order, cells of the written history carrying the face the reference state machine (run over ALL bytes written so far, refused or not) gives them (writer/refusing-parent/face, /text). non-trivial = (a) a colour followed by at least one more parameter, (b) text plus a set followed later by a clear of the same attribute, two underline styles, or strike".into()
+        "(a) 50%: 1-7 items out of Face (optional opaque fg/bg x 32 flag subsets x 6 underline styles) / FaceModify (every field combination incl. underline colour, reset) / Char (any scalar except ESC) encoded by one TTYEncoder in true colour (in one case of five after a failed encode into a writer refusing after 0-47 bytes) and decoded by TTYCommandDecoder as a single buffer, in 1-6 generated chunks and byte at a time; expected = the same face changes (reset + every expressible field for Face) and characters. In one round-trip case of four the items are also encoded, by a fresh encoder with the same history, into a writer that accepts only 1-64 (mostly 1-3) bytes per write call (cyclic pattern of 1-3 limits, always progress, never an error): encode must return Ok and, if other bytes reach that writer than reach the Vec, they must decode to the same history (roundtrip/short-write-sink/<item class>). (b) 50%: histories of 1-11 SGR sequences (1-5 parameters in standard spelling: 0, empty, 1/22, 3/23, 4, 4:0-4:5, 21, 24, 5/25, 9/29, 30-37, 40-47, 90-97, 100-107, 38/48/58 in all four spellings) and text, written through CellWrite::tty_writer from a generated initial face with the same three chunkings into a recording parent. 60% of (b): the parent accepts every cell and every produced cell must carry the face of the reference SGR state machine. 40% of (b): the parent refuses cells (put_cell returns false) - 20% a full target that accepts 0-11 cells and then refuses until rewound, 20% a clipped target that accepts the first 1..width-1 cells of every line of 2-7 cells - and the harness rewinds it through writer.parent() before 0-3 (full) or 0-2 (clipped) generated items (a rewind is a write boundary in all three chunkings); the cells the parent accepted must be, in order, cells of the written history carrying the face the reference state machine (run over ALL bytes written so far, refused or not) gives them (writer/refusing-parent/face, /text). 35% of (b), independent of the parent: the history is additionally written through SEVERAL writer instances over the same parent - 1-4 generated item boundaries at which the writer is dropped (no flush, no parent() call) and a new parent.by_ref().tty_writer() is made - as one write per instance, with the generated chunks and byte at a time inside the instances; the cells must be the same as for one instance, i.e. carry the face of the reference state machine over the whole history (writer/instances/face, /text, /cell-count, writer/instances/refusing-parent/...). non-trivial = (a) a colour followed by at least one more parameter, (b) text plus a set followed later by a clear of the same attribute, two underline styles, or strike".into()
     }
 
     fn assumptions(&self) -> Vec<String> {
@@ -557,6 +610,7 @@ impl Property for C06 {
             "reverse video of a Face is not expressible by the record and is ignored in (a); an initial reverse attribute persists until reset in (b)".into(),
             "RGB values of the 16 named colours are the library's pinned table".into(),
             "contract of io::Write the statement's 'every chunking of the written bytes' relies on: write may accept any non-empty prefix of the buffer and the caller offers the rest again; into a writer that always makes progress and never fails encode must return Ok, and the bytes that reached it are the bytes written".into(),
+            "writer instances: the escape-sequence cell writer keeps the SGR state in the parent's current face (CellWrite::face/set_face), an instance itself only holds the decoder state of an unfinished sequence; the library's idiom is one short-lived parent.by_ref().tty_writer() per piece of output, written with write!/write_all and dropped (io::Write has no obligation to call flush for bytes to take effect on an unbuffered state machine, and Drop cannot report). So a history cut BETWEEN complete items (SGR sequences, texts) and written through one instance per segment is a chunking of the written bytes and must give the cells of one instance; boundaries inside a sequence are not generated (the unfinished sequence is lost with the instance)".into(),
             "refusing parents: the statement does not say whether the writer still offers characters to a parent that has refused one, so cells may be missing; only accepted cells are judged (a subsequence of the history's cells, matched greedily on character and face), and no particular time of delivery relative to a rewind is required".into(),
         ]
     }
